@@ -22,6 +22,13 @@ def jobs():
             trusted=[SQL, 'cif_u_strdup / cif_loop_free by assumed contract', 'strcmp modelled loop-free for the single call (comparison of the SQLite error message)'],
             clauses=['failure at any name position (first / middle / last), inside or outside a transaction => every write undone, nothing else undone, nothing durable',
                      'success => bracket closed (RELEASE inside, COMMIT outside), nothing lost', 'never COMMIT or ROLLBACK of an enclosing transaction', 'caller\'s handle variable untouched on failure']),
+        Job('set_value', 'container_h.c', entry='harness_set_value', enforce='cif_container_set_value', tus=T,
+            replace=['cif_normalize_item_name', 'cif_container_get_item_loop_internal', 'cif_container_add_scalar', 'cif_container_set_all_values'],
+            reach=['set', 'failed-after-writes', 'refused-inside-transaction'], min_obligations=30, timeout=900, mem_gb=16, replay=False, flags=['--sat-solver', 'cadical'],
+            trusted=[SQL, 'ASSUMED contracts of the helpers cif_container_add_scalar / cif_container_set_all_values (they stay inside the caller\'s transaction; every write pending or undone), '
+                     'cif_container_get_item_loop_internal (reads only), cif_normalize_item_name'],
+            clauses=['BEGIN ... COMMIT bracket: any helper failure or COMMIT failure => ROLLBACK, nothing durable', 'refused without effect inside an open transaction',
+                     'success => transaction closed, writes durable']),
     ]
     for j in C06.jobs():
         if j.name in ('remove_packet', 'update_packet_guards'):
